@@ -3,6 +3,7 @@ package checks
 import (
 	"fmt"
 	"math/rand/v2"
+	"strings"
 
 	"github.com/bufbuild/verifharness/gen"
 )
@@ -113,6 +114,10 @@ func c03Enrich(r *rand.Rand, s *gen.Schema) {
 			}
 			if syn == "editions" && fl.Kind == "scalar" && fl.Type == "string" && r.IntN(4) == 0 {
 				fl.Options = setOpt(fl.Options, "features.utf8_validation", "NONE")
+			}
+			if syn == "editions" && fl.Kind == "message" && !strings.HasPrefix(fl.Type, "google.protobuf.") && r.IntN(3) == 0 {
+				// delimited (group-like) encoding of a message field
+				fl.Options = setOpt(fl.Options, "features.message_encoding", "DELIMITED")
 			}
 			if fl.JSONName == "" && r.IntN(8) == 0 {
 				fl.JSONName = "j" + gen.Pascal(fl.Name)
